@@ -43,6 +43,18 @@ using namespace std;
 #define CHUNK_LEN 65536
 #define CHUNK_SH  16
 
+#if defined(KAUZLARI_SYMPLER_VERIF) && defined(VERIF_CHUNK_SH)
+/* verification hook: small chunks make capacity growth reachable in tests */
+#undef CHUNK_LEN
+#undef CHUNK_SH
+#define CHUNK_SH  VERIF_CHUNK_SH
+#ifdef VERIF_CHUNK_LEN
+#define CHUNK_LEN VERIF_CHUNK_LEN
+#else
+#define CHUNK_LEN (1 << VERIF_CHUNK_SH)
+#endif
+#endif
+
 
 /* Macros */
 
